@@ -21,6 +21,8 @@ type Job struct {
 type Stats struct {
 	Conform, Delivered, Dropped, Waited, Retried, Suppressed int64
 	Racing, AfterClose, Adopted, Either                      int64
+	LateHandlers                                             int64
+	LateExample                                              string
 
 	mu        sync.Mutex
 	confirmed map[string]int
@@ -77,6 +79,18 @@ func RunJob(c *core.Ctx, tabs map[string]*Table, j Job, st *Stats) {
 	}
 	key, _ := json.Marshal(j)
 	c.Eval(string(key), len(e.Trace) >= 3)
+	if d != nil && d.Sig != nil && d.Sig["what"] == LateHandler {
+		// known deviation of today's listener (SharedPort.tla with Bug "LateAccept"): a race
+		// between acceptLoop and Close, not reproducible at will -- counted, reported as an
+		// observation by the driver, and the rest of the run has been judged already
+		atomic.AddInt64(&st.LateHandlers, 1)
+		st.mu.Lock()
+		if st.LateExample == "" {
+			st.LateExample = d.Detail
+		}
+		st.mu.Unlock()
+		d = nil
+	}
 	if d != nil {
 		if d.Sig != nil && st.enough(d.Sig) {
 			atomic.AddInt64(&st.Suppressed, 1)
@@ -89,6 +103,10 @@ func RunJob(c *core.Ctx, tabs map[string]*Table, j Job, st *Stats) {
 		if err != nil {
 			c.Broken("G06 listener replay %s: %v", j.Key, err)
 			return
+		}
+		if d2 != nil && d2.Sig != nil && d2.Sig["what"] == LateHandler {
+			atomic.AddInt64(&st.LateHandlers, 1)
+			d2 = nil
 		}
 		if d2 != nil {
 			if d2.Sig == nil {
